@@ -675,25 +675,23 @@ async def load_scripts(
 
     if len(will_reload) > 0:
 
-        def import_recurse(ctx_name, visited, ctx2imports):
-            if ctx_name in visited or ctx_name in ctx2imports:
-                return ctx2imports.get(ctx_name, set())
-            visited.add(ctx_name)
-            ctx = GlobalContextMgr.get(ctx_name)
-            if not ctx:
-                return set()
-            ctx2imports[ctx_name] = set()
-            for imp_name in ctx.get_imports():
-                ctx2imports[ctx_name].add(imp_name)
-                ctx2imports[ctx_name].update(import_recurse(imp_name, visited, ctx2imports))
-            return ctx2imports[ctx_name]
+        def import_closure(ctx_name):
+            # everything reachable over import edges; a plain search per context, since results
+            # memoised while a cycle (a imports b, b imports a) is still open are incomplete
+            reached = set()
+            todo = [ctx_name]
+            while todo:
+                ctx = GlobalContextMgr.get(todo.pop())
+                if not ctx:
+                    continue
+                for imp_name in ctx.get_imports():
+                    if imp_name not in reached:
+                        reached.add(imp_name)
+                        todo.append(imp_name)
+            return reached
 
-        ctx2imports = {}
         for global_ctx_name, global_ctx in ctx_all.items():
-            if global_ctx_name not in ctx2imports:
-                visited = set()
-                import_recurse(global_ctx_name, visited, ctx2imports)
-            for mod_name in ctx2imports.get(global_ctx_name, set()):
+            for mod_name in import_closure(global_ctx_name):
                 parts = mod_name.split(".")
                 root = f"{parts[0]}.{parts[1]}"
                 if root in will_reload:
